@@ -22,9 +22,10 @@ namespace rkcommon {
           "access iterators!");
 
       const size_t count = std::distance(begin, end);
-      auto *v            = &(*begin);
 
-      parallel_for(count, [&](size_t i) { f(v[i]); });
+      // NOTE - index the iterator itself: the elements of a random-access
+      //        range need not be contiguous in memory (e.g. std::deque)
+      parallel_for(count, [&](size_t i) { f(begin[i]); });
     }
 
     template <typename CONTAINER_T, typename TASK_T>
